@@ -117,6 +117,24 @@ def run_selfcheck(ctx):
 
 
 
+def replay_program(ctx):
+    """--replay <file>: the program of a stored violation, or None (then the whole check is re-run,
+    which reproduces every violation of that tier and seed since all choices derive from the seed)."""
+    f = getattr(ctx, "replay_file", None)
+    if not f:
+        return None
+    try:
+        import json
+        d = json.load(open(f))
+        p = (d.get("replay") or {}).get("program")
+        if isinstance(p, str) and "(regenerate with the generator)" not in p:
+            ctx.log(f"replaying the program stored in {f}")
+            return p
+    except Exception as e:
+        ctx.log(f"cannot read replay file {f}: {e}")
+    return None
+
+
 TRUSTED = [
     "Coq 8.16.1 kernel + vm_compute",
     "coq/Model/Eval.v: definitional evaluator written from docs/language-spec.md (ints wrapping at 48 bits, truncating division, short-circuit and/or, block scoping and shadowing, top-level lets as globals, parameters as copies, closures sharing cells, arrays/vecs by reference with bounds checks, ranges, for-each, break/continue, string concatenation and interpolation, float arithmetic/comparison with int promotion through the PrimFloat codec of Model/VmArith.v); float printing, structs, slices, casts, std modules other than print/println are outside the modelled fragment and are discarded (counted)",
@@ -142,6 +160,9 @@ def run(ctx):
     corpus, corpus_names = load_corpus("C02", names=True)
     progs = corpus + progs
     feats = [["corpus"]] * len(corpus) + feats
+    rp = replay_program(ctx)
+    if rp is not None:
+        progs, feats, corpus, corpus_names = [rp], [["replay"]], [], []
     res = run_stream(ctx, progs)
     if res is None:
         return
@@ -220,7 +241,8 @@ def run(ctx):
                        "non-trivial = distinct program text longer than 40 chars on which all four levels agreed with the evaluator")
     for i in idx[:3]:
         ctx.add_samples([{"program": progs[i], "O0": res[i]["run"]["0"][:3]}])
-    run_selfcheck(ctx)
+    if rp is None:
+        run_selfcheck(ctx)
 
 
 def classify(prog, runs, lv):
